@@ -1402,6 +1402,20 @@ func c19r7(c *Ctx, r *Report) {
 				}
 			}
 		}
+		// keep only the values tested by the listing decision, i.e. by a branch after the append
+		for x := range isDirVals {
+			after := false
+			for _, ap := range appends {
+				eachInstr(f, func(in ssa.Instruction) {
+					if iff, ok := in.(*ssa.If); ok && iff.Cond == x && !iff.Block().Dominates(ap.Block()) {
+						after = true
+					}
+				})
+			}
+			if !after {
+				delete(isDirVals, x)
+			}
+		}
 		if len(appends) == 0 || len(isDirVals) == 0 {
 			r.unest(relName(f)+":separator and classification", f.Pos(), f, "the separator append and the IsDir-derived condition of the push", "cannot find them")
 			continue
